@@ -6,10 +6,10 @@ def plan(ctx):
     seed, tier = ctx["seed"], ctx["tier"]
     items = []
     if tier == "quick":
-        pools = [("general", 90), ("mutation", 30)]
+        pools = [("general", 400), ("mutation", 150), ("panic", 50)]
         cap = 20.0
     else:
-        pools = [("general", 500), ("mutation", 200), ("wide", 400), ("panic", 100)]
+        pools = [("general", 3000), ("mutation", 1000), ("wide", 2000), ("panic", 500), ("widemutation", 500)]
         cap = 120.0
     for profile, n in pools:
         for i in range(n):
@@ -29,5 +29,5 @@ def summarize(ctx, items, results):
             "of each circuit (real From<&SsaCircuit>) is simulated symbolically and mitered against the SSA form. "
             "disagreements_checked = solver queries discharged.")
     return common.summarize_tv(ctx, items, results, "C01", what, common.BASE_ASSUMPTIONS + [
-        "bounds: expression depth <= 3, <= 5 statements per block, arrays <= 3 elements, integer types u8/i8/u16/i16 (quick) plus u32/i32/u64/i64/usize (thorough, `* / %` only with one literal operand above 8 bits); per-query cap 20 s / 120 s",
+        "bounds: expression depth <= 3, <= 5 statements per block, arrays <= 3 elements, integer types u8/i8/u16/i16 (quick) plus u32/i32/u64/i64/usize (thorough, `* / %` only with one literal operand above 8 bits); per-query cap 20 s / 120 s; pools: 600 programs quick, 7000 thorough",
     ])
